@@ -10,6 +10,7 @@ import (
 	"sync"
 
 	"github.com/mit-pdos/go-journal/vrt"
+	"github.com/mit-pdos/go-nfsd/fstxn"
 	"verif/fsx"
 	"verif/par"
 	"verif/reffs"
@@ -200,6 +201,10 @@ func seqExpand(raw json.RawMessage) (interface{}, error) {
 				Replay:  map[string]interface{}{"job": "seq.expand", "arg": seqArg{Spec: a.Spec, Path: a.Path, Only: oi}}})
 		}
 		var lastClass string
+		savedIC := fstxn.ICACHESZ
+		if spec.ICacheSz != 0 {
+			fstxn.ICACHESZ = spec.ICacheSz
+		}
 		res := vrt.Run(vrt.Config{Horizon: 3_000_000}, func() {
 			w := NewWorld(img)
 			w.Model.StrictStale = spec.Strict
@@ -222,19 +227,25 @@ func seqExpand(raw json.RawMessage) (interface{}, error) {
 			}
 			lastClass = w.OpClass(op)
 			r, implFail, mis := w.Do(op)
+			// the state key is taken before the oracle runs (oracles may restart or probe the server)
+			key := ""
+			if mis == nil || spec.After != nil {
+				if spec.Key != nil {
+					key = spec.Key(w)
+				} else {
+					key = w.defaultKey()
+				}
+			}
 			if spec.After != nil {
 				spec.After(w, full, r, implFail, mis, func(sig, detail string) { viol(sig+"|"+lastClass, detail) })
 			} else if mis != nil {
 				viol(mis.Rule+"|"+lastClass, mis.Msg)
 			}
 			if len(succ.Viols) == 0 {
-				if spec.Key != nil {
-					succ.Key = spec.Key(w)
-				} else {
-					succ.Key = w.defaultKey()
-				}
+				succ.Key = key
 			}
 		})
+		fstxn.ICACHESZ = savedIC
 		succ.Steps = res.Steps
 		if v := VerdictViolation(&res, spec.Prop, lastClass); v != nil {
 			viol(v.Sig, v.Detail)
